@@ -169,6 +169,15 @@ fn main() {
         impl Default for D7 { fn default() -> Self { D7(0x5A5A_5A5A) } }
         #[cfg(not(feature = "vmem"))]
         for n in [1usize, 2, 3, 7, 64] {
+            // a constructor that refuses (panics on) a legal length is reported with that length
+            for (name, r) in [("ConcurrentHeapRB::default", std::panic::catch_unwind(|| { let _ = ConcurrentHeapRB::<D7>::default(n); })),
+                              ("LocalHeapRB::default", std::panic::catch_unwind(|| { let _ = LocalHeapRB::<D7>::default(n); })),
+                              ("ConcurrentHeapRB / LocalHeapRB ::from(vec![_; n]), n = ", std::panic::catch_unwind(|| { let _ = ConcurrentHeapRB::<D7>::from(vec![D7(1); n]); let _ = LocalHeapRB::<D7>::from(vec![D7(1); n]); }))] {
+                if let Err(e) = r {
+                    let msg = e.downcast_ref::<String>().cloned().or_else(|| e.downcast_ref::<&str>().map(|x| x.to_string())).unwrap_or_default();
+                    println!("MISMATCH {}({}): the constructor PANICKED for a legal length: {}", name, n, msg.replace('\n', " ")); std::process::exit(1);
+                }
+            }
             let b = ConcurrentHeapRB::<D7>::default(n); let (mut p, _c) = b.split();
             if p.buf_len() != n { println!("MISMATCH ConcurrentHeapRB::default({}): length {}", n, p.buf_len()); std::process::exit(1); }
             if n > 1 { let ok = unsafe { p.get_next_slices_mut(n - 1) }.map(|(h, t)| h.iter().chain(t.iter()).all(|x| *x == D7::default())).unwrap_or(false);
